@@ -370,6 +370,10 @@ def decode_obname(body):
         return None
 
 
+REF_TYPE = {(st_, row_[0]): row_[7].split('ref=')[1].split(';')[0] for st_ in filegen.ATTRS for row_ in filegen.ATTRS[st_]
+            if 'ref=' in row_[7] and row_[7].split('ref=')[1].split(';')[0] != '*'}
+
+
 def oracle_references(chk, r):
     """C07 on a decoded whole file: every OBNAME / OBJREF value and every IFLR reference resolves to exactly one
     object defined in the same logical file (before the record, for IFLRs)"""
@@ -400,6 +404,12 @@ def oracle_references(chk, r):
                                 key = (int(oo), int(cc), bytes.fromhex(nn).decode() if nn != '-' else '')
                                 if key not in by_obname:
                                     problems.append(f'{x["set_type"]} {o["name"]!r} {lab}: reference {key} resolves to no object of the logical file')
+                                else:
+                                    # an OBNAME carries no type: the attribute's definition says which type it denotes
+                                    want_t = REF_TYPE.get((x['set_type'], lab))
+                                    if want_t and want_t not in by_obname[key]:
+                                        problems.append(f'{x["set_type"]} {o["name"]!r} {lab}: reference {key} denotes a {want_t} object; '
+                                                        f'the logical file has only {by_obname[key]} under that name')
                             if v.startswith('r') and a['rc'] == 24:
                                 tt, oo, cc, nn = v[1:].split('.')
                                 key = (bytes.fromhex(tt).decode(), int(oo), int(cc), bytes.fromhex(nn).decode() if nn != '-' else '')
@@ -513,6 +523,60 @@ def cross_reference_stream(chk, model, tier, prop='C07'):
             oracle_references(chk, r)
             for f in chk.failures[before:]:
                 f['key'] = 'references:target-in-another-logical-file'
+        # ... and an object of the WRONG TYPE (same logical file) for every attribute whose references denote one type:
+        # refused, or written so that it resolves to an object of that type
+        for i, (st, row) in enumerate(targets):
+            want = row[7].split('ref=')[1].split(';')[0] if 'ref=' in row[7] else '*'
+            if want == '*':
+                continue
+            kind = filegen.SETTYPE_KIND[st]
+            df = DLISFile(set_identifier='XREF')
+            lf = df.add_logical_file(fh_id='H', fh_sequence_number=1)
+            lf.add_origin('O', file_set_number=3, creation_time='2020/01/01 00:00:00')
+            ch = lf.add_channel('CH', data=np.arange(3, dtype=np.float32))
+            fr = lf.add_frame('FR', channels=[ch])
+            have = {'CHANNEL': ch, 'FRAME': fr}
+            for kd, (meth, sty, _) in filegen.KINDS.items():
+                if kd in ('channel', 'frame', 'origin'):
+                    continue
+                # same name for all: an OBNAME alone cannot tell them apart
+                stx, ob = call(getattr(lf, meth), 'SAME')
+                if stx == 'ok':
+                    have[sty] = ob
+            others = [t for t in sorted(have) if t != want and t not in ('CHANNEL', 'FRAME')]
+            target = have[R.choice(others)]
+            kw = {filegen.api_keyword(kind, row[1]): [target] if row[4] else target}
+
+            def build2():
+                if kind == 'channel':
+                    lf.add_channel('CX', data=np.arange(3, dtype=np.float32), **kw)
+                elif kind == 'frame':
+                    lf.add_frame('FX', **kw)
+                else:
+                    getattr(lf, filegen.KINDS[kind][0])('NEW', **kw)
+                df.write(f'{tmp}/y.dlis', output_chunk_size=2**20)
+            stt, err = call(build2)
+            case = {'referencing_object': st, 'attribute': row[0], 'references_denote': want,
+                    'given': f'{target.parent.set_type} {target.name!r}'}
+            chk.case('wrong-typed-references', nontrivial_key=('wt', st, row[0]), sample={**case, 'status': stt if stt == 'ok' else err})
+            chk.count(f'wrong-type:{st}.{row[0]}:{stt}')
+            if stt != 'ok':
+                continue
+            rep = model.ask([f"dump 8192 {cps('1')} {cps('XREF')} {hexs(open(f'{tmp}/y.dlis', 'rb').read())}"])[0]
+            r = wf.Run()
+            r.case, r.recs = case, (filegen.parse_dump(rep) if rep.startswith('ok') else None)
+            if r.recs is None:
+                chk.fail('references:unreadable', case, 'strict reader rejects the file')
+                continue
+            r.lfs = content.split_logical_files(r.recs)
+            before = len(chk.failures)
+            oracle_references(chk, r)
+            for f in chk.failures[before:]:
+                f['key'] = 'references:object-of-another-type'
+            if len(chk.failures) == before:
+                chk.fail('references:object-of-another-type', case,
+                         f'a {target.parent.set_type} object was accepted where references denote {want} objects and written as if it '
+                         f'were one')
     finally:
         shutil.rmtree(tmp, ignore_errors=True)
 
@@ -730,6 +794,15 @@ def c20_failed_write_stream(chk, tier, tmp):
                         b.df.write(path, **kw)
                 st, err = call(hc_write)
             causes.append(f'{cause}:{st}{"" if st == "ok" else ":" + str(err)}')
+        # a write refused inside the mode's context leaves the context: what is valid outside the mode is accepted again
+        from dliswriter import DLISFile as _DFp
+        from dliswriter.configuration import global_config as _gc
+        stp, errp = call(_DFp, set_identifier='lower case id')
+        if stp != 'ok':
+            chk.fail('failed-write:mode-left-on', {'index': i, 'spec': filegen.describe(spec), 'earlier_write_attempts': causes},
+                     f"after the attempts a call that is valid outside high-compatibility mode (DLISFile(set_identifier='lower case "
+                     f"id')) is refused: {errp}")
+            _gc.high_compat_mode = False
         kw = dict(output_chunk_size=2**20)
         if spec['write']['data_kind'] == 'dict':
             kw['data'] = b.data
